@@ -109,15 +109,18 @@ for pat, what in [(r"#define PUT_BITS\(code, size\) \{ \\\s*free_bits -= size; \
                   (r"#define PUT_CODE\(code, size\) \{ \\\s*(?:if \(\(size\) == 0\) \\\s*ERREXIT\(state->cinfo, JERR_HUFF_MISSING_CODE\); \\\s*)?temp &= \(\(\(JLONG\)1\) << nbits\) - 1; \\\s*temp \|= code << nbits; \\\s*nbits \+= size; \\\s*PUT_BITS\(temp, nbits\) \\\s*\}", "PUT_CODE"),
                   (r"free_bits \+= BIT_BUF_SIZE; \\\s*put_buffer = code;", "PUT_AND_FLUSH"),
                   (r"buffer -= -2 \+ \(\(JOCTET\)\(b\) < 0xFF\);", "EMIT_BYTE"),
-                  (r"while \(r >= 16 \* 16\) \{ \\\s*r -= 16 \* 16; \\\s*PUT_BITS\(actbl->ehufco\[0xf0\], actbl->ehufsi\[0xf0\]\)", "ZRL loop"),
+                  (r"while \(r >= 16 \* 16\) \{ \\\s*r -= 16 \* 16; \\\s*(?:if \(actbl->ehufsi\[0xf0\] == 0\) \\\s*ERREXIT\(state->cinfo, JERR_HUFF_MISSING_CODE\); \\\s*)?PUT_BITS\(actbl->ehufco\[0xf0\], actbl->ehufsi\[0xf0\]\)", "ZRL loop"),
                   (r"PUT_CODE\(dctbl->ehufco\[nbits\], dctbl->ehufsi\[nbits\]\)", "DC PUT_CODE"),
                   (r"PUT_CODE\(actbl->ehufco\[r\], actbl->ehufsi\[r\]\)", "AC PUT_CODE"),
-                  (r"if \(r > 0\) \{\s*PUT_BITS\(actbl->ehufco\[0\], actbl->ehufsi\[0\]\)", "EOB")]:
+                  (r"if \(r > 0\) \{\s*(?:if \(actbl->ehufsi\[0\] == 0\)\s*ERREXIT\(state->cinfo, JERR_HUFF_MISSING_CODE\);\s*)?PUT_BITS\(actbl->ehufco\[0\], actbl->ehufsi\[0\]\)", "EOB")]:
     if not re.search(pat, jchuff):
         die("jchuff.c: %s macro/statement no longer has the modelled form" % what)
 # F17 fix: PUT_CODE reports a symbol without a code
 consts["MISSING_CODE_CHECK"] = 1 if re.search(
     r"#define PUT_CODE\(code, size\) \{ \\\s*if \(\(size\) == 0\) \\\s*ERREXIT\(state->cinfo, JERR_HUFF_MISSING_CODE\);", jchuff) else 0
+consts["MISSING_ZRL_EOB_CHECK"] = 1 if (re.search(
+    r"r -= 16 \* 16; \\\s*if \(actbl->ehufsi\[0xf0\] == 0\) \\\s*ERREXIT\(state->cinfo, JERR_HUFF_MISSING_CODE\); \\\s*PUT_BITS\(actbl->ehufco\[0xf0\]", jchuff)
+    and re.search(r"if \(r > 0\) \{\s*if \(actbl->ehufsi\[0\] == 0\)\s*ERREXIT\(state->cinfo, JERR_HUFF_MISSING_CODE\);\s*PUT_BITS\(actbl->ehufco\[0\]", jchuff)) else 0
 # F15 fix: the SIMD path checks the coefficient range in C before calling the SIMD encoder
 consts["SIMD_RANGE_PRECHECK"] = 1 if re.search(
     r"int max_coef = \(1 << \(state->cinfo->data_precision \+ (\d+)\)\) - 1;.*?if \(temp > 2 \* max_coef \+ 1\)\s*ERREXIT\(state->cinfo, JERR_BAD_DCT_COEF\);"
@@ -295,7 +298,7 @@ for k in ["DCTSIZE", "DCTSIZE2", "MAX_COMPONENTS", "MAX_COMPS_IN_SCAN", "C_MAX_B
           "MAX_COEF_BITS_ADD", "DC_EXTRA_BITS", "AHAL_PREC", "MAX_AH_AL_HI", "MAX_AH_AL_LO", "LOSSLESS_PREC_MIN", "LOSSLESS_PREC_MAX",
           "LOSSY_PREC_A", "LOSSY_PREC_B", "RESTART_MAX", "PSV_MIN", "PSV_MAX", "QUANT_MIN", "QUANT_MAX", "QUANT_BASELINE_MAX",
           "QUALITY_MIN", "QUALITY_MAX", "DIVISOR_CLAMP", "DIVISOR_CLAMPED_EVERYWHERE", "ZERO_QUANT_REJECTED",
-          "NCOMP_CHECK_IN_VALIDATE", "REVALIDATE_AFTER_LOSSLESS", "MISSING_CODE_CHECK", "SIMD_RANGE_PRECHECK", "RESTART_CLAMP_DIRECT", "TJ_NUMSAMP", "TJ_NUMCS"]:
+          "NCOMP_CHECK_IN_VALIDATE", "REVALIDATE_AFTER_LOSSLESS", "MISSING_CODE_CHECK", "MISSING_ZRL_EOB_CHECK", "SIMD_RANGE_PRECHECK", "RESTART_CLAMP_DIRECT", "TJ_NUMSAMP", "TJ_NUMCS"]:
     out.append("Definition g_%s : Z := %d." % (k, consts[k]))
 out.append("\n(* zigzag order of encode_one_block: position 0 and the 63 kloop() arguments *)")
 out.append("Definition g_kloop_order : list Z :=\n  [%s]." % "; ".join(map(str, zz)))
